@@ -72,6 +72,7 @@ def regen(which=None):
 
 # ------------------------------------------------------------------ Coq
 def ensure_makefile():
+    sh(['python3', os.path.join(VERIF, 'bin/mkcoqproject')], timeout=60)
     mk = os.path.join(COQ, 'Makefile')
     cp = os.path.join(COQ, '_CoqProject')
     if not os.path.exists(mk) or os.path.getmtime(mk) < os.path.getmtime(cp):
@@ -244,15 +245,16 @@ def cargo_build(release=False, timeout=1200):
 def rust_bin(release=False):
     return os.path.join(HARNESS, 'target', 'release' if release else 'debug', 'xh')
 
-def ocaml_build(timeout=900):
-    rc, out, dt = sh(['sh', os.path.join(OCAML, 'build.sh')], cwd=OCAML, timeout=timeout)
+def ocaml_build(targets, timeout=900):
+    """targets: ['model_<area>', 'spec_<area>', ...]"""
+    rc, out, dt = sh(['sh', os.path.join(OCAML, 'build.sh')] + list(targets), cwd=OCAML, timeout=timeout)
     return rc == 0, out, dt
 
-def model_bin():
-    return os.path.join(OCAML, '_build', 'driver')
+def model_bin(area):
+    return os.path.join(OCAML, '_build', 'model_' + area)
 
-def spec_bin():
-    return os.path.join(OCAML, '_build', 'specdriver')
+def spec_bin(area):
+    return os.path.join(OCAML, '_build', 'spec_' + area)
 
 def run_bin(binary, args, cases=None, timeout=600, shards=1):
     """feed `cases` (list of lines) to `binary args`, return the output lines"""
@@ -430,7 +432,7 @@ class Run:
 
 def proof_step(run, prop, translators, timeout=900, extra_targets=()):
     """regenerate, build the closure of Properties/<prop>.vo, collect obligations and axioms.
-    Returns True when every obligation is discharged and the axioms are allowed."""
+    Returns (True when every obligation is discharged and the axioms are allowed, make output)."""
     with Lock():
         tr = regen(translators)
         for name, (ok, msg) in tr.items():
@@ -469,15 +471,24 @@ def proof_step(run, prop, translators, timeout=900, extra_targets=()):
                     run.failed_obligations.append('coqchk failed: ' + o[-300:])
         return ok and not run.failed_obligations and not run.tie_breaks, out
 
-def build_binaries(run, release=False):
+def build_binaries(run, model_areas=(), spec_areas=(), release=False):
+    """harness against /repo's working tree; extraction + driver for the given areas.
+    Returns (harness ok, {area: ok} for models, {area: ok} for specs)."""
     with Lock():
         ok1, out1, _ = cargo_build(release)
         if not ok1:
             run.tie_breaks.append('harness build failed: ' + out1[-400:])
-        ok2, out2, _ = ocaml_build()
-        if not ok2:
-            run.tie_breaks.append('model build failed: ' + out2[-400:])
-    return ok1, ok2
+        ensure_makefile()
+        mok, sok = {}, {}
+        for kind, areas, res in (('model', model_areas, mok), ('spec', spec_areas, sok)):
+            for a in areas:
+                okx, outx, _ = coq_make(['extraction/Extract_%s_%s.vo' % (kind, a)], timeout=900)
+                if okx:
+                    okx, outx, _ = ocaml_build(['%s_%s' % (kind, a)])
+                res[a] = okx
+                if not okx:
+                    run.tie_breaks.append('%s driver for area %s does not build: %s' % (kind, a, ' '.join(outx.split())[-300:]))
+    return ok1, mok, sok
 
 def parse_args(argv):
     import argparse
